@@ -17,8 +17,13 @@ def main():
     if not os.path.exists(os.path.join(seed, "patch.diff")):
         print("no patch at", seed)
         return 2
-    v = subprocess.run([os.path.join(VERIF, "tools", "seed_verify.sh"), wt, n], text=True, capture_output=True)
-    vline = (v.stdout.strip().splitlines() or ["?"])[-1]
+    cached = os.path.join(seed, "verify.txt")
+    if os.path.exists(cached):
+        # tools/seed_verify.sh was already run for this change (in parallel with others); its output line was kept
+        vline = (open(cached).read().strip().splitlines() or ["?"])[-1]
+    else:
+        v = subprocess.run([os.path.join(VERIF, "tools", "seed_verify.sh"), wt, n], text=True, capture_output=True)
+        vline = (v.stdout.strip().splitlines() or ["?"])[-1]
     print(vline)
     ok_base = re.search(r"baseline-demo: \[test result: ok", vline) is not None
     ok_mut = re.search(r"mutated-demo: \[test result: FAILED", vline) is not None or "panicked" in vline
